@@ -53,7 +53,7 @@ mod annotation {
 
 // ---- the parser, reduced to what the two productions use
 #[derive(Clone, Copy)]
-enum TokenOp { Colon, Arrow, Comma, RightBrace, Semicolon, Other(u8) }
+enum TokenOp { Colon, Arrow, Comma, RightBrace, Semicolon, RightParenthesis, Other(u8) }
 #[derive(Clone, Copy)]
 enum Keyword { If, Other(u8) }
 #[derive(Clone, Copy)]
@@ -430,6 +430,19 @@ fn no_comment_reference() -> (r: CommentReference) { unimplemented!() }
          && (n.loc == joined(import_start, imported_module_loc) || exists|semicolon: Location| n.loc == #[trigger] joined(import_start, semicolon)) }),  // :import_range_runs_from_its_keyword_to_the_module_name_or_the_semicolon
 //@before imports.push(ModuleMembersImport {
     assert(loc == joined(import_start, imported_module_loc) || exists|semicolon: Location| loc == #[trigger] joined(import_start, semicolon));
+//@end
+
+// ---- a parenthesized expression list (call arguments, tuple) runs from its opening to its closing parenthesis
+//@extractblock crates/samlang-parser/src/source_parser.rs :: mod expression_parser / fn parse_parenthesized_expression_list_with_start
+//@from let (end_loc, ending_comments) =
+//@to expressions, }
+//@wrap fn paren_list_node(parser: &mut SourceParser, start_loc: Location, starting_comments: Vec<Comment>, expressions: Vec<expr::E<()>>) -> (r: expr::ParenthesizedExpressionList<()>)
+//@contract
+    ensures
+      r.expressions == expressions && encloses(r.loc, start_loc)
+        && exists|end: Location| r.loc == #[trigger] joined(start_loc, end),  // :expression_list_range_runs_from_opening_to_closing_parenthesis
+//@before expr::ParenthesizedExpressionList {
+    assert(exists|end: Location| loc == #[trigger] joined(start_loc, end));
 //@end
 
 // =====================================================================================
